@@ -1,5 +1,7 @@
-(* PV.C07.Refuted — counter-models: one per guard conjunct that exists because the CODE fails.
-   Every witness was reproduced on the real pharmpy functions (known_findings.d/C07.json). *)
+(* PV.C07.Refuted — counter-models: one per guard conjunct that exists because the CODE fails, and regression
+   `Example`s of the repaired behaviour for the findings that were fixed in /repo
+   (C07-DECL-STALE-CAPTURE 0e1c190, C07-CLEANUP-ALIAS-CHAIN 185d1d3, C07-OBS-EXPR-FIRST-ASSIGNMENT df3152c,
+   C07-FIXED-THETAS-REMOVES-OMEGAS 142d5a3).  Still refuted: cleanup_drops_dv_refuted. *)
 From Coq Require Import QArith List Bool PArith Arith.
 From PV Require Import Base.PyData Base.Expr Base.Interp Base.Stmts C07.Model.
 Import ListNotations.
@@ -15,53 +17,46 @@ Definition stale_prog : list stm :=
    SAssign sA (Num 5); SAssign sY (Add (Add (Sym sA) (Sym sB)) (Sym sC))].
 Definition stale_env : env := env_of [(sT1, 1); (sT2, 2)]%Q.
 
-Example stale_result :
+(* formerly `B=TH2; C=B; A=5; Y=...` (Y = 2 TH2 + 5): C now keeps the value TH1 *)
+Example stale_fixed :
   declarative stale_prog =
-  [SAssign sB (Sym sT2); SAssign sC (Sym sB); SAssign sA (Num 5);
-   SAssign sY (Add (Add (Sym sA) (Sym sB)) (Sym sC))].
-Proof. vm_compute. reflexivity. Qed.
+  [SAssign sB (Sym sT2); SAssign sC (Sym sT1); SAssign sA (Num 5);
+   SAssign sY (Add (Add (Sym sA) (Sym sB)) (Sym sC))] /\
+  g_no_stale_capture stale_prog = true /\
+  sexec std_fi std_ode stale_env (declarative stale_prog) sY = sexec std_fi std_ode stale_env stale_prog sY /\
+  sexec std_fi std_ode stale_env stale_prog sY = Some 8%Q.
+Proof. repeat split; vm_compute; reflexivity. Qed.
 
-(* make_declarative changes Y from TH1 + TH2 + 5 to 2 TH2 + 5 *)
-Theorem declarative_refuted :
-  exists l, g_no_stale_capture l = false /\
-            ~ (forall fi ode r x, sexec fi ode r (declarative l) x = sexec fi ode r l x).
-Proof.
-  exists stale_prog. split; [vm_compute; reflexivity|].
-  intro H. specialize (H std_fi std_ode stale_env sY). vm_compute in H. discriminate.
-Qed.
+(* the code before the fix on the same program (kept as Model.declarative_before_fix) *)
+Example stale_before_fix :
+  g_no_stale_capture_before_fix stale_prog = false /\
+  sexec std_fi std_ode stale_env (declarative_before_fix stale_prog) sY = Some 9%Q.
+Proof. split; vm_compute; reflexivity. Qed.
 
-(* the raw first-occurrence capture: A = TH1; B = A; A = TH2; B = B + 1; Y = B gives TH2 + 1 *)
+(* the raw first-occurrence capture: A = TH1; B = A; A = TH2; B = B + 1; Y = B gave TH2 + 1, now TH1 + 1 *)
 Definition raw_prog : list stm :=
   [SAssign sA (Sym sT1); SAssign sB (Sym sA); SAssign sA (Sym sT2); SAssign sB (Add (Sym sB) (Num 1));
    SAssign sY (Sym sB)].
-Theorem declarative_raw_capture_refuted :
-  g_no_stale_capture raw_prog = false /\
+Example raw_capture_fixed :
+  g_no_stale_capture raw_prog = true /\
   sexec std_fi std_ode stale_env raw_prog sY = Some 2%Q /\
-  sexec std_fi std_ode stale_env (declarative raw_prog) sY = Some 3%Q.
+  sexec std_fi std_ode stale_env (declarative raw_prog) sY = Some 2%Q /\
+  sexec std_fi std_ode stale_env (declarative_before_fix raw_prog) sY = Some 3%Q.
 Proof. repeat split; vm_compute; reflexivity. Qed.
 
-(* VC = TH1*2; V = VC; S1 = V; Y = W / S1 : the inlining loop turns Y into W / V and drops V *)
+(* VC = TH1*2; V = VC; S1 = V; Y = W / S1 : formerly Y = W / V with V removed (ValueError "Symbol V is not
+   defined"); now S1 is resolved to VC *)
 Definition chain_prog : list stm :=
   [SAssign sVC (Mul (Sym sT1) (Num 2)); SAssign sV (Sym sVC); SAssign sS1 (Sym sV);
    SAssign sY (Div (Sym sW) (Sym sS1))].
 Definition chain_known : list id := [sT1; sT2; sW; sE1].
 
-Theorem inline_chain_refuted :
-  exists l, g_no_alias_chain l = false /\
-            ~ (forall fi ode r x, ~ In x (inlined l) -> sexec fi ode r (inline l) x = sexec fi ode r l x).
-Proof.
-  exists chain_prog. split; [vm_compute; reflexivity|].
-  intro H. specialize (H std_fi std_ode (env_of [(sT1, 1); (sW, 4)]%Q) sY).
-  assert (Hn : ~ In sY (inlined chain_prog)).
-  { vm_compute. intros [E|[E|[]]]; discriminate. }
-  specialize (H Hn). vm_compute in H. discriminate.
-Qed.
-
-(* ... which Model.replace then refuses: cleanup_model raises ValueError on a valid model *)
-Theorem cleanup_chain_raises :
-  canon_ok chain_known chain_prog = true /\ g_no_stale_capture chain_prog = true /\
-  g_no_alias_chain (declarative chain_prog) = false /\
-  cleanup_m chain_known [] [] chain_prog = RValueError.
+Example alias_chain_fixed :
+  g_inline_ok chain_prog = true /\
+  inline chain_prog = [SAssign sVC (Mul (Sym sT1) (Num 2)); SAssign sY (Div (Sym sW) (Sym sVC))] /\
+  cleanup_m chain_known [] [] chain_prog = ROk (cleanup_stmts [] [] chain_prog) /\
+  sexec std_fi std_ode (env_of [(sT1, 1); (sW, 4)]%Q) (cleanup_stmts [] [] chain_prog) sY = Some 2%Q /\
+  sexec std_fi std_ode (env_of [(sT1, 1); (sW, 4)]%Q) chain_prog sY = Some 2%Q.
 Proof. repeat split; vm_compute; reflexivity. Qed.
 
 (* F = TH1 * W; Y = F : the dependent variable is a pure alias and its definition disappears *)
@@ -77,33 +72,38 @@ Proof.
   - intro H. specialize (H std_fi std_ode (env_of [(sT1, 1); (sW, 4)]%Q)). vm_compute in H. discriminate.
 Qed.
 
-(* Y = TH1 + E1; Y = Piecewise((TH2 + E1, W > 5), (Y, True)) : the extractor reads the FIRST assignment *)
+(* Y = TH1 + E1; Y = Piecewise((TH2 + E1, W > 5), (Y, True)) : the extractor formerly read the FIRST assignment
+   (TH1 + E1 for every W); now the last one, expanded over the first *)
 Definition twoy_prog : list stm :=
   [SAssign sY (Add (Sym sT1) (Sym sE1));
    SAssign sY (PwCons (CRel OGt (Sym sW) (Num 5)) (Add (Sym sT2) (Sym sE1)) (PwCons CTrue (Sym sY) PwNil))].
-Theorem obs_expr_refuted :
-  exists l dv y, g_dv_single l dv = false /\ obs_expr l dv = Some y /\
-                 ~ (forall fi ode r, eval r fi y = sexec fi ode r l dv).
-Proof.
-  exists twoy_prog, sY, (Add (Sym sT1) (Sym sE1)). repeat split; try (vm_compute; reflexivity).
-  intro H. specialize (H std_fi std_ode (env_of [(sT1, 1); (sT2, 2); (sE1, 0); (sW, 8)]%Q)).
-  vm_compute in H. discriminate.
-Qed.
+Example obs_expr_fixed :
+  obs_expr twoy_prog sY =
+    Some (PwCons (CRel OGt (Sym sW) (Num 5)) (Add (Sym sT2) (Sym sE1))
+                 (PwCons CTrue (Add (Sym sT1) (Sym sE1)) PwNil)) /\
+  match obs_expr twoy_prog sY with
+  | Some y => eval (env_of [(sT1, 1); (sT2, 2); (sE1, 0); (sW, 8)]%Q) std_fi y = Some 2%Q
+  | None => False end /\
+  sexec std_fi std_ode (env_of [(sT1, 1); (sT2, 2); (sE1, 0); (sW, 8)]%Q) twoy_prog sY = Some 2%Q.
+Proof. repeat split; vm_compute; reflexivity. Qed.
 
-(* EPS1 ~ N(0, SI1) with SI1 fixed to 1: replace_fixed_thetas removes the parameter SI1 although the
-   distribution of EPS1 still uses it *)
+(* a second assignment that reads the first: Y = TH1; Y = Y + 1 is TH1 + 1 (the loop no longer substitutes
+   the last assignment into itself) *)
+Example obs_expr_self_reference :
+  obs_expr [SAssign sY (Sym sT1); SAssign sY (Add (Sym sY) (Num 1))] sY = Some (Add (Sym sT1) (Num 1)).
+Proof. vm_compute. reflexivity. Qed.
+
+(* EPS1 ~ N(0, SI1) with SI1 fixed to 1: replace_fixed_thetas formerly removed the parameter SI1 although the
+   distribution of EPS1 still uses it; now only the fixed theta is replaced *)
 Definition sSI : id := 13%positive.
-Theorem replace_fixed_dangling_refuted :
-  exists fixed dists params p,
-    g_fixed_are_thetas fixed dists = false /\
-    In p (flat_map d_params (kept_dists fixed dists)) /\ In p params /\
-    ~ In p (cleanup_params fixed dists params).
-Proof.
-  exists [(sSI, 1%Q)], [mkDist [sE1] [sSI]], [sT1; sSI], sSI. repeat split; try (vm_compute; tauto).
-  vm_compute. intros [E|[]]. discriminate.
-Qed.
+Example fixed_sigma_kept :
+  cleanup_params [(sT1, 2%Q); (sSI, 1%Q)] [mkDist [sE1] [sSI]] [sT1; sT2; sSI] = [sT2; sSI] /\
+  fixed_after [(sT1, 2%Q); (sSI, 1%Q)] [mkDist [sE1] [sSI]] = [(sT1, 2%Q)] /\
+  dangling [(sT1, 2%Q); (sSI, 1%Q)] [mkDist [sE1] [sSI]] = [].
+Proof. repeat split; vm_compute; reflexivity. Qed.
 
-(* a fixed entry of a block: Model.replace cannot validate the covariance matrix any more (TypeError) *)
-Example cleanup_block_internal_error :
-  cleanup_m chain_known [(sSI, (1#2)%Q)] [mkDist [sE1; sW] [sSI; sVC]] dropdv_prog = RInternal.
+(* a fixed entry of a block no longer makes Model.replace fail *)
+Example cleanup_block_fixed :
+  cleanup_m chain_known [(sSI, (1#2)%Q)] [mkDist [sE1; sW] [sSI; sVC]] dropdv_prog =
+  ROk (cleanup_stmts [(sSI, (1#2)%Q)] [mkDist [sE1; sW] [sSI; sVC]] dropdv_prog).
 Proof. vm_compute. reflexivity. Qed.
